@@ -48,7 +48,7 @@ CHECKS = {
  "C14": ("exploration", "runtime round-trip oracles on the exported codecs (exhaustive 8/16-bit fields, boundary-dense wider fields, random values and byte strings) and NTS-KE streams delivered through every single cut point, one-byte/half readers, multi-cut and small bufio readers",
          "decode(encode(v)) = v, encode(decode(b)) = b for headers, extension-field kinds preserved and 4-byte aligned, segmentation-independence of ReadData at every cut point of generated server messages.",
          "iotest/bufio readers stand in for transport segmentation (same read boundaries as TLS records); request sizes kept within the 1024-byte NTS packet limit", "3/C14"),
- "C20": ("fault_enumeration", "runtime monitor of the real Fetcher (and IP client) against a scripted TLS NTS-KE server: enumerated record-stream faults (record x position, truncation at every byte, segmentation at every byte, ALPN offers) and sequences of failed and successful exchanges; keys compared with the server side's exporter values",
+ "C20": ("fault_enumeration", "runtime monitor of the real Fetcher (and IP client) against a scripted TLS NTS-KE server: enumerated record-stream faults (record x position, truncation at every byte, segmentation at every byte, ALPN offers) and sequences of failed and successful exchanges; keys compared with the server side's exporter values; plus a leg compiled into the service's own package (overlay build) that checks what timeservice.go hands to the key-exchange fetchers of its IP and SCION clients",
          "Every fault class is enumerated over every position of a conformant message; verdict per stream derived from the statement (must fail / must succeed / either); state after failures observed through connection counts and tagged cookies.",
          "IP-literal server records only; TLS library and exporter trusted; warning records and non-canonical record lengths are judged only for crash-freedom and, if accepted, for the rest of the stream", "3/C20"),
  "C05": ("exploration", "runtime monitor of the real IP and SCION clients against a scripted loopback peer that answers each request with a script of crafted datagrams, each tagged by a distinct huge clock offset so that the returned offset identifies the datagram it was computed from",
